@@ -658,6 +658,14 @@ class Scripts:
                 if filt and fixed_len < 2:
                     fixed_len = 2
                 self.emit('fsk_ook_set_packet_format 0 %d' % fixed_len)
+            if r.random() < 0.2:
+                # both modems are configured while asleep, then the receiver listens in FSK/OOK
+                self.emit('set_opmod 0 0x80')
+                self.emit('lora_set_bandwidth 0x70')
+                self.emit('lora_set_implicit_header NULL')
+                self.emit('lora_set_modem_config_2 %d' % r.choice([0x70, 0x90, 0xc0]))
+                self.emit('lora_set_syncword 0x12')
+                self.emit('set_opmod 0 %d' % mod)
             self.emit('set_opmod 5 %d' % mod)
             for _ in range(r.randint(1, 4)):
                 if variable:
@@ -933,9 +941,13 @@ class Scripts:
             self.begin('float', 'bitrate mod=%x' % mod)
             self.emit('create')
             self.emit('set_opmod 1 %d' % mod)
-            for _ in range(n):
-                x = self.pick_float(lo, hi)
+            # rates whose divider has a fractional part followed by rates whose divider is whole:
+            # the fraction register must follow every call
+            fixed = [9600.0, 50000.0, 4800.0, 100000.0, 1200.0, 250000.0, 38400.0, 200000.0] if mod == FSK else [4800.0, 25000.0, 1200.0, 20000.0]
+            for k in range(n + len(fixed)):
+                x = fixed[k] if k < len(fixed) else self.pick_float(lo, hi)
                 self.emit('fsk_ook_set_bitrate %d' % f32bits(x))
+                self.emit('dump')
                 self.emit('#= bitrate %d %d' % (mod, f32bits(x)))
         self.begin('float', 'fdev')
         self.emit('create')
